@@ -17,6 +17,7 @@ whose legs are structural; completeness of the search is NOT decided.
  Rp presence      : optional numeric fields are tested with `is None` / membership, never by truthiness (0 is a value).
  R7 group constraints: the scan of a combination stops early only after a STRICT failure (shared with C11-R6).
  Rn arg roles     : a variable named like a parameter of the callee is handed to that parameter (no exchanged roles).
+ R8 inputs        : every synchronization entry becomes a group; hop flags stay attached when route lists are edited (shared with C11-R4).
 """
 import ast
 
@@ -399,6 +400,32 @@ def rn_arg_roles(ctx):
     ctx.check('Rn.arg-roles', 'argument / parameter name scan', True, 'C12|arg-roles-scan', '', f'{n} argument(s) named like another parameter judged')
 
 
+def r8_inputs(ctx):
+    """R8: the groups and the route lists the search works on are the ones that were asked: disjunctions_from_json turns EVERY
+    synchronization entry into a Disjunction (the append is unconditional in the loop over the entries) carrying its
+    request-id-number list; STRICT / LOOSE flags stay attached to their hops when invalid hops are removed (route-list
+    editing rules shared with C11-R4)"""
+    from .c11 import r4_route_lists
+    from .common import proxy
+    repo = ctx.repo
+    f = repo.func('gnpy.tools.json_io', 'disjunctions_from_json')
+    lps = [n for n in walk_no_nested(f.node) if isinstance(n, ast.For) and "'synchronization'" in ast.unparse(n.iter)]
+    ok = len(lps) == 1
+    if ok:
+        lp = lps[0]
+        apps = [c for c in ast.walk(lp) if isinstance(c, ast.Call) and isinstance(c.func, ast.Attribute) and c.func.attr == 'append' and
+                c.args and isinstance(c.args[0], ast.Call) and getattr(c.args[0].func, 'id', '') == 'Disjunction']
+        ok = len(apps) == 1 and getattr(stmt_of(f, apps[0]), '_parent', None) is lp and \
+            not any(isinstance(x, (ast.Continue, ast.Break)) for x in ast.walk(lp))
+        ids = [n for n in ast.walk(lp) if isinstance(n, ast.Assign) and "'disjunctions_req'" in ast.unparse(n.targets[0])]
+        ok = ok and len(ids) == 1 and ast.unparse(ids[0].value).endswith("['svec']['request-id-number']")
+    ctx.check('R8.every-group', site(f), ok, key(f, 'every-group'),
+              'not every synchronization entry of the request file becomes a disjunction group (with its request-id-number list): the '
+              'requests of a dropped group would be routed independently and may share links')
+    r4_route_lists(proxy(ctx, 'R8'))
+    ctx.need('R8.every-group', 1)
+
+
 from ..memo import rule_for as _memo_rule
 
 RULES_MEMO = ('Rm.memo', _memo_rule('C12', 'candidates computed for another request would be reused'))
@@ -409,4 +436,4 @@ from ..presence import rule_for as _presence_rule
 RULES_PRESENCE = ('Rp.presence', _presence_rule('C12', 'a legal zero would be read as missing'))
 
 RULES = [('R1.acceptance', r1_acceptance), ('R2.shrink-only', r2_shrink), ('R3.must-raise', r3_raise), ('R4.cutoff', r4_cutoff),
-         ('R5.helper', r5_helper), ('R6.groups', r6_groups), RULES_MEMO, RULES_PRESENCE, ('R7.group-constraints', r7_group_constraints), ('Rn.arg-roles', rn_arg_roles)]
+         ('R5.helper', r5_helper), ('R6.groups', r6_groups), RULES_MEMO, RULES_PRESENCE, ('R7.group-constraints', r7_group_constraints), ('Rn.arg-roles', rn_arg_roles), ('R8.inputs', r8_inputs)]
